@@ -74,7 +74,9 @@ NArgs(ev) == Len(ev.args)
 HistStep(h, w, ev) ==
   IF ~(Call(ev) /\ IsOk(ev)) THEN h ELSE
   LET h1 ==
-    CASE ev.fn = "ESDTTransfer" /\ ev.caller = ESDTSC /\ NArgs(ev) >= 2 -> Bump(h, Arg(ev,1).h, Arg(ev,2).q)
+    \* tokens entering the modelled world: an issue by the system contract, or any other incoming ESDTTransfer executed directly on the
+    \* destination side (no sender account, not the delivery of one of the world's own messages)
+    CASE ev.fn = "ESDTTransfer" /\ ev.a = "exec" /\ ~ev.snd /\ NArgs(ev) >= 2 -> Bump(h, Arg(ev,1).h, Arg(ev,2).q)
       [] ev.fn = "ESDTLocalMint" /\ NArgs(ev) >= 2 -> Bump(h, Arg(ev,1).h, Arg(ev,2).q)
       [] ev.fn \in {"ESDTLocalBurn", "ESDTBurn"} /\ NArgs(ev) >= 2 -> Bump(h, Arg(ev,1).h, 0 - Arg(ev,2).q)
       [] ev.fn = "ESDTNFTCreate" /\ NArgs(ev) >= 2 ->
